@@ -177,6 +177,16 @@ requests:
   - name: e
     method: GET
     uri: '/e/{{index .source.shop.users 5}}'
+  - name: f
+    method: GET
+    uri: /f
+    postprocessors:
+      - type: assert/response
+        body: ["fine"]
+      - type: var/jsonpath
+        mapping: {tk: $.token}
+      - type: var/header
+        mapping: {ct: Content-Type}
   - name: g
     method: GET
     uri: '/g/{{.request.g.preprocessor.i1}}/{{.request.g.preprocessor.i2}}/{{.request.g.preprocessor.i3}}/{{.request.g.preprocessor.i4}}'
@@ -275,7 +285,7 @@ func (c Cell) kindAt(n int, name string) string {
 			return d.Kind
 		}
 	}
-	if name == "a" {
+	if name == "a" || name == "f" {
 		return "tok"
 	}
 	return "ok200"
@@ -304,6 +314,8 @@ func (c Cell) interpret(n *int, next *int) wantShot {
 			s = Sent{Method: "GET", URI: "/b?t=" + token}
 		case "c":
 			s = Sent{Method: "GET", URI: "/c"}
+		case "f":
+			s = Sent{Method: "GET", URI: "/f"}
 		case "g":
 			// integer indices wrap around in both directions (5 rows: -7 -> row 3, 12 -> row 2, -5 -> row 0), last -> row 4
 			s = Sent{Method: "GET", URI: "/g/14/13/11/15"}
@@ -725,6 +737,8 @@ func programs(thorough bool) [][]string {
 			}
 		}
 	}
+	// a step whose failing assertion is followed by further postprocessors
+	out = append(out, []string{"f"}, []string{"f", "c"}, []string{"a", "f", "b"}, []string{"f(2)", "b"}, []string{"c", "f"})
 	return out
 }
 
@@ -743,7 +757,7 @@ func execCells(thorough bool) []Cell {
 			for pos := 1; pos <= total; pos++ {
 				name := steps[(pos-1)%len(steps)].name
 				kinds := []string{"s500", "err"}
-				if name == "a" {
+				if name == "a" || name == "f" {
 					kinds = []string{"s500", "err", "bad"}
 				}
 				for _, k := range kinds {
